@@ -454,6 +454,10 @@ def batch_prediction(ctx):
     ctx.check("R02.5", "batch-prediction", not bad and len(sub.obligations) >= 3, "batch-prediction-broken", "src/network.rs", "%d facts about predict / predict_batch" % len(sub.obligations))
 
 
+RULES["R02.4"] += " | linear-algebra: Tensor::dot / product / transpose facts of R15.3 re-run here (W x is dot)"
+
+RULES["R02.5"] += " | batch-prediction: predict_batch = predict of every input in order (R12.1 re-run here)"
+
 def run(ctx):
     ctx.guard("R02.4", "linear-algebra", dense_linear_algebra, ctx)
     ctx.guard("R02.5", "batch-prediction", batch_prediction, ctx)
